@@ -36,6 +36,44 @@ func emitGrid(tag string, lo, hi int, z bool, g geom.Geom) {
 	}
 	fmt.Fprintf(w, "grid %s %d %d %d %s\n", tag, lo, hi, zz, vproto.GeomToks(g))
 }
+func emitSGrid(tag string, lo, hi, ex int, g geom.Geom) {
+	fmt.Fprintf(w, "sgrid %s %d %d %d %s\n", tag, lo, hi, ex, vproto.GeomToks(scaleGeom(g, ex)))
+}
+
+// dyadic scales (exact): ordinary thresholds, and magnitudes where products of two coordinate
+// differences overflow (>= 2^512) or underflow (<= 2^-538) while quotients do not
+var scales = []int{20, -20, 30, -30, 100, -100, 400, -400, 511, -511, 512, -512, 538, -538, 600, -600, 900, -900, 1000, -1000}
+var floatScales = []int{30, -30, 100, -100, 400, -400, 511, -511, 512, -512, 600, -600, 900, -900}
+
+func scalePt(p geom.Point, ex int) geom.Point {
+	return geom.Point{X: math.Ldexp(p.X, ex), Y: math.Ldexp(p.Y, ex)}
+}
+func scalePoly(p geom.Polygon, ex int) geom.Polygon {
+	o := make(geom.Polygon, len(p))
+	for i, r := range p {
+		o[i] = make(geom.Path, len(r))
+		for k, v := range r {
+			o[i][k] = scalePt(v, ex)
+		}
+	}
+	return o
+}
+func scaleGeom(g geom.Geom, ex int) geom.Geom {
+	switch t := g.(type) {
+	case geom.Polygon:
+		return scalePoly(t, ex)
+	case geom.MultiPolygon:
+		o := make(geom.MultiPolygon, len(t))
+		for i, p := range t {
+			o[i] = scalePoly(p, ex)
+		}
+		return o
+	case *geom.Bounds:
+		return &geom.Bounds{Min: scalePt(t.Min, ex), Max: scalePt(t.Max, ex)}
+	}
+	panic("scaleGeom")
+}
+
 func emitPt(tag string, p geom.Point, g geom.Geom) {
 	fmt.Fprintf(w, "pt %s %s %s %s\n", tag, vproto.F2H(p.X), vproto.F2H(p.Y), vproto.GeomToks(g))
 }
@@ -276,6 +314,37 @@ func sampled(r *vproto.Rng, n int) {
 	}
 }
 
+// the sampled shapes at dyadic scales (the Rat spec is evaluated on the exact scaled values)
+func scaledShapes(r *vproto.Rng, n int) {
+	fixed := []geom.Geom{
+		poly(ring{pt(0, 0), pt(4, 0), pt(0, 4)}),
+		poly(ring{pt(0, 2), pt(2, 0), pt(4, 2), pt(2, 4)}),
+		poly(ring{pt(0, 0), pt(4, 0), pt(4, 4), pt(0, 4)}, ring{pt(1, 1), pt(2, 3), pt(3, 1)}),
+	}
+	for _, ex := range scales {
+		for _, g := range fixed {
+			emitSGrid(fmt.Sprintf("s%d", ex), -2, 10, ex, g)
+		}
+	}
+	for i := 0; i < n; i++ {
+		ex := scales[r.Intn(len(scales))]
+		tag := fmt.Sprintf("s%d", ex)
+		switch r.Intn(5) {
+		case 0:
+			emitSGrid(tag, -2, 10, ex, poly(spell(r, gridRing(r, 3+r.Intn(3), 4, 1))))
+		case 1:
+			emitSGrid(tag, -2, 10, ex, randPolygon(r, 4, 1))
+		case 2:
+			emitSGrid(tag, -2, 10, ex, geom.MultiPolygon{randPolygon(r, 4, 1), randPolygon(r, 4, 1)})
+		case 3:
+			emitSGrid(tag, -2, 10, ex, randPolygon(r, 8, 2))
+		default:
+			a := gridRing(r, 2, 8, 2)
+			emitSGrid(tag, -2, 10, ex, &geom.Bounds{Min: a[0], Max: a[1]})
+		}
+	}
+}
+
 // half-integers of magnitude up to 2^11: query points are vertices, edge midpoints, points at vertex
 // heights and their neighbours
 func bigGrid(r *vproto.Rng, n int) {
@@ -331,7 +400,7 @@ func clear(p geom.Point, pg geom.Polygon, margin float64) bool {
 	return true
 }
 
-func floatCases(r *vproto.Rng, n int) {
+func floatCases(r *vproto.Rng, n int, exps []int) {
 	for i := 0; i < n; i++ {
 		scale := math.Pow(10, float64(r.Range(-3, 6)))
 		cx, cy := (r.Float()-0.5)*scale*4, (r.Float()-0.5)*scale*4
@@ -400,7 +469,12 @@ func floatCases(r *vproto.Rng, n int) {
 				g = pg
 			}
 		}
-		emitPt(tag, p, g)
+		if exps != nil {
+			ex := exps[r.Intn(len(exps))]
+			emitPt(fmt.Sprintf("s%d-%s", ex, tag), scalePt(p, ex), scaleGeom(g, ex))
+		} else {
+			emitPt(tag, p, g)
+		}
 	}
 }
 
@@ -457,7 +531,9 @@ func gen(seed uint64, tier string) {
 		exhaustiveOpen("trihalf6", 3, 6, 2)
 		sampled(r, 20000)
 		bigGrid(r, 1500)
-		floatCases(r, 150000)
+		floatCases(r, 150000, nil)
+		scaledShapes(r, 6000)
+		floatCases(r, 30000, floatScales)
 		receivers(r, 15000)
 	} else {
 		exhaustive("tri", 3, 2, true)
@@ -465,7 +541,9 @@ func gen(seed uint64, tier string) {
 		exhaustiveOpen("trihalf", 3, 4, 2)
 		sampled(r, 4000)
 		bigGrid(r, 300)
-		floatCases(r, 20000)
+		floatCases(r, 20000, nil)
+		scaledShapes(r, 1200)
+		floatCases(r, 5000, floatScales)
 		receivers(r, 3000)
 	}
 	w.Flush()
@@ -479,6 +557,151 @@ func status(f func() geom.WithinStatus) string {
 	return fmt.Sprint(int(s))
 }
 
+// ---- implementation stage ----
+//
+// Every polygonal argument is built three ways: as parsed (every ring owns its array), "flat" (all rings of
+// all member polygons are consecutive windows of ONE buffer with spare capacity, so cap(ring) > len(ring) and
+// the element after a ring is the first vertex of the next), and "prefix" (every ring is a prefix re-slice of a
+// longer array; empty rings are nil). The query of the line is asked TWICE against each object; after every
+// pass the argument (visible part and whole backing arrays) is compared bit for bit with a snapshot.
+// Within is a function of the point and the polygon: a modified argument or an answer that depends on the
+// variant or the round is reported on the result line and judged SPEC.
+
+var sentinel = geom.Point{X: 12345.5, Y: -54321.5}
+
+type variant struct {
+	name string
+	pg   geom.Polygonal
+	bufs [][]geom.Point
+	snap [][]geom.Point
+	toks string
+}
+
+func (v *variant) snapshot() {
+	v.toks = vproto.GeomToks(v.pg.(geom.Geom))
+	v.snap = make([][]geom.Point, len(v.bufs))
+	for i, b := range v.bufs {
+		v.snap[i] = append([]geom.Point(nil), b...)
+	}
+}
+
+func (v *variant) changed() string {
+	if t := vproto.GeomToks(v.pg.(geom.Geom)); t != v.toks {
+		return "visible"
+	}
+	for i, b := range v.bufs {
+		for k := range b {
+			if math.Float64bits(b[k].X) != math.Float64bits(v.snap[i][k].X) || math.Float64bits(b[k].Y) != math.Float64bits(v.snap[i][k].Y) {
+				return fmt.Sprintf("backing[%d][%d]", i, k)
+			}
+		}
+	}
+	return ""
+}
+
+func variants(pg geom.Polygonal, nilEmpty bool) []*variant {
+	var polys []geom.Polygon
+	multi := false
+	switch t := pg.(type) {
+	case geom.Polygon:
+		polys = []geom.Polygon{t}
+	case geom.MultiPolygon:
+		polys, multi = t, true
+	default:
+		v := &variant{name: "parsed", pg: pg}
+		v.snapshot()
+		return []*variant{v}
+	}
+	wrap := func(ps []geom.Polygon) geom.Polygonal {
+		if multi {
+			return geom.MultiPolygon(ps)
+		}
+		return ps[0]
+	}
+	v0 := &variant{name: "parsed", pg: pg}
+	total := 0
+	for _, p := range polys {
+		for _, r := range p {
+			v0.bufs = append(v0.bufs, r[:cap(r)])
+			total += len(r)
+		}
+	}
+	// flat: windows of one buffer with spare capacity
+	buf := make([]geom.Point, total+3)
+	for i := range buf {
+		buf[i] = sentinel
+	}
+	flat := make([]geom.Polygon, len(polys))
+	o := 0
+	for i, p := range polys {
+		flat[i] = make(geom.Polygon, len(p))
+		for k, r := range p {
+			copy(buf[o:], r)
+			flat[i][k] = buf[o : o+len(r)]
+			o += len(r)
+		}
+	}
+	v1 := &variant{name: "flat", pg: wrap(flat), bufs: [][]geom.Point{buf}}
+	// prefix re-slices; empty rings are nil
+	v2 := &variant{name: "prefix"}
+	pre := make([]geom.Polygon, len(polys))
+	for i, p := range polys {
+		pre[i] = make(geom.Polygon, len(p))
+		for k, r := range p {
+			if len(r) == 0 && nilEmpty {
+				continue
+			}
+			big := make([]geom.Point, len(r)+2)
+			copy(big, r)
+			big[len(r)], big[len(r)+1] = sentinel, sentinel
+			pre[i][k] = big[:len(r)]
+			v2.bufs = append(v2.bufs, big)
+		}
+	}
+	v2.pg = wrap(pre)
+	vs := []*variant{v0, v1, v2}
+	for _, v := range vs {
+		v.snapshot()
+	}
+	return vs
+}
+
+// ask runs the query against every variant twice
+func ask(pg geom.Polygonal, nilEmpty bool, run func(geom.Polygonal) string) string {
+	base := ""
+	for _, v := range variants(pg, nilEmpty) {
+		for round := 1; round <= 2; round++ {
+			r := run(v.pg)
+			if c := v.changed(); c != "" {
+				return fmt.Sprintf("argument-modified variant=%s round=%d where=%s answer=%s", v.name, round, c, r)
+			}
+			if base == "" {
+				base = r
+			} else if r != base {
+				return fmt.Sprintf("%s unstable variant=%s round=%d first=%s", r, v.name, round, base)
+			}
+		}
+	}
+	return base
+}
+
+func gridRun(lo, hi int, coord func(int) float64) func(geom.Polygonal) string {
+	return func(pg geom.Polygonal) string {
+		var b strings.Builder
+		for j := lo; j <= hi; j++ {
+			for i := lo; i <= hi; i++ {
+				q := geom.Point{X: coord(i), Y: coord(j)}
+				s := status(func() geom.WithinStatus { return q.Within(pg) })
+				if len(s) != 1 {
+					return s
+				}
+				b.WriteString(s)
+			}
+		}
+		return b.String()
+	}
+}
+
 func impl() {
 	vproto.Lines(func(line string, out *bufio.Writer) {
 		defer out.Flush()
@@ -490,38 +713,45 @@ func impl() {
 				p.Next()
 				lo, hi, z := p.Int(), p.Int(), p.Int()
 				pg := p.Geom().(geom.Polygonal)
-				var b strings.Builder
-				half := func(i int) float64 {
+				res = ask(pg, true, gridRun(lo, hi, func(i int) float64 {
 					if i == 0 && z == 1 {
 						return math.Copysign(0, -1)
 					}
 					return float64(i) / 2
-				}
-				for j := lo; j <= hi; j++ {
-					for i := lo; i <= hi; i++ {
-						q := geom.Point{X: half(i), Y: half(j)}
-						s := status(func() geom.WithinStatus { return q.Within(pg) })
-						if len(s) != 1 {
-							res = s
-							return
-						}
-						b.WriteString(s)
-					}
-				}
-				res = b.String()
+				}))
+			case "sgrid": // the half-integer grid scaled by 2^exp (the polygon on the line is already scaled)
+				p.Next()
+				lo, hi, ex := p.Int(), p.Int(), p.Int()
+				pg := p.Geom().(geom.Polygonal)
+				res = ask(pg, true, gridRun(lo, hi, func(i int) float64 { return math.Ldexp(float64(i)/2, ex) }))
 			case "pt":
 				p.Next()
 				q := p.Pt()
 				pg := p.Geom().(geom.Polygonal)
-				res = status(func() geom.WithinStatus { return q.Within(pg) })
+				res = ask(pg, true, func(pg geom.Polygonal) string {
+					return status(func() geom.WithinStatus { return q.Within(pg) })
+				})
 			case "recv":
-				p.Next()
+				tag := p.Next()
 				a := p.Geom()
 				if p.Next() != "|" {
 					panic("recv: missing |")
 				}
 				pg := p.Geom().(geom.Polygonal)
-				res = status(func() geom.WithinStatus { return a.(geom.Withiner).Within(pg) })
+				before := vproto.GeomToks(a)
+				// reflect.DeepEqual distinguishes nil from empty rings: keep empty rings non-nil here
+				res = ask(pg, false, func(pg geom.Polygonal) string {
+					return status(func() geom.WithinStatus { return a.(geom.Withiner).Within(pg) })
+				})
+				if ap, ok := a.(geom.Polygon); ok && tag == "self" && len(res) == 1 {
+					// the same object on both sides
+					if r := status(func() geom.WithinStatus { return ap.Within(ap) }); r != res {
+						res = r + " unstable variant=same-object first=" + res
+					}
+				}
+				if vproto.GeomToks(a) != before {
+					res = "argument-modified receiver"
+				}
 			default:
 				res = "badline"
 			}
